@@ -85,6 +85,8 @@ class Forward:
         self._depth = 0
         self._stack: List[str] = []
         self._inlined: Set[int] = set()
+        self._loop_exits: List[Tuple[List[State], List[State]]] = []
+        self.loop_iteration_end: Dict[int, State] = {}      # id(loop) -> state at the end of one iteration (all normal ends joined)
         self._call_elts: Dict[int, List[Poly]] = {}
         self.sym.suffix = self._suffix
         for p in fa.f.params:
@@ -335,7 +337,15 @@ class Forward:
                 self.return_elts[id(s)] = [self.ev(x) for x in s.value.elts]
             self.returns.append((s, v, self.st.copy()))
             self.st.alive = False
-        elif isinstance(s, (ast.Raise, ast.Continue, ast.Break)):
+        elif isinstance(s, ast.Continue):
+            if self._loop_exits:
+                self._loop_exits[-1][0].append(self.st.copy())      # this iteration ends here: its state joins the other ends of the body
+            self.st.alive = False
+        elif isinstance(s, ast.Break):
+            if self._loop_exits:
+                self._loop_exits[-1][1].append(self.st.copy())
+            self.st.alive = False
+        elif isinstance(s, ast.Raise):
             self.st.alive = False
         elif isinstance(s, ast.If):
             if self.on_stmt:
@@ -380,8 +390,21 @@ class Forward:
                 it = self.ev(s.iter)
                 self._invalidate_calls(s.iter)
                 self._bind_loop_target(s.target, it)
+            self._loop_exits.append(([], []))
             self._block(s.body)
-            after = self.st
+            conts, breaks = self._loop_exits.pop()
+            ends = ([self.st] if self.st.alive else []) + conts       # every way one iteration can end normally (fall-through or `continue`)
+            if ends:
+                it_end = ends[0]
+                for e_ in ends[1:]:
+                    it_end = join(it_end, e_)
+                self.loop_iteration_end[id(s)] = it_end.copy()
+            else:
+                it_end = None
+            after = it_end if it_end is not None else self.st
+            for b_ in breaks:
+                after = join(after, b_) if after.alive else b_
+            after = after.copy()
             after.alive = True   # continue/break/fallthrough all leave the loop eventually
             self.st = join(before, after)
             self._block(s.orelse)
